@@ -103,7 +103,7 @@ impl Renderer {
                     };
                     let num_lines = output.matches('\n').count();
                     write!(self.stdout, "{}{}", self.reset_sequence, output)?;
-                    self.reset_sequence = "\x1b[2K\x1b[1A".repeat(num_lines);
+                    self.reset_sequence = "\x1b[2K\x1b[1A".repeat(num_lines) + "\x1b[2K";
                     self.last_print = Some(Instant::now());
                 }
 
